@@ -2,6 +2,7 @@ package afero
 
 import (
 	"os"
+	"path/filepath"
 	"regexp"
 	"syscall"
 	"time"
@@ -28,7 +29,8 @@ func (r *RegexpFs) matchesName(name string) error {
 	if r.re == nil {
 		return nil
 	}
-	if r.re.MatchString(name) {
+	// the file a name denotes is decided by its cleaned form ("secret.bin/" is secret.bin)
+	if r.re.MatchString(filepath.Clean(name)) {
 		return nil
 	}
 	return syscall.ENOENT
